@@ -401,8 +401,12 @@ class Body:
             self._calls = [CallSite(self, i, b["term"]) for i, b in enumerate(self.blocks) if b["term"]["k"] == "call" and not b["cleanup"]]
         return self._calls
 
-    def calls_deep(self, depth=0):
-        """calls() plus the calls made inside new helper functions (see VirtualCallSite); known functions are not entered"""
+    def calls_deep(self, depth=0, loops=False):
+        """calls() plus the calls made inside new helper functions (see VirtualCallSite); known functions are not entered.
+        Helpers that contain loops are entered only with loops=True (a site inside a helper's loop is then shown once although
+        it may run many times: only for rules that look at the helper's loop themselves)."""
+        if loops:
+            return self._calls_deep_loops(depth)
         if getattr(self, "_calls_deep", None) is not None and depth == 0:
             return self._calls_deep
         known = known_functions()
@@ -438,6 +442,27 @@ class Body:
                 out.append(VirtualCallSite(cs, inner, at, ct))
         if depth == 0:
             self._calls_deep = out
+        return out
+
+    def _calls_deep_loops(self, depth=0):
+        known = known_functions()
+        out = []
+        tm = None
+        for cs in self.calls():
+            out.append(cs)
+            k = cs.callee
+            if not known or k is None or k in known or k not in self.facts.bodies or depth > 1 or "{closure" in k:
+                continue
+            hb = self.facts.bodies[k]
+            if hb.raw.get("kind") not in ("fn", "assocfn") or hb.raw.get("impl_trait") or len(hb.blocks) > 200:
+                continue
+            tm = tm or Terms(self)
+            htm = Terms(hb)
+            actuals = tuple(tm.operand(a, cs.bb) for a in cs.args)
+            for inner in hb._calls_deep_loops(depth + 1):
+                at = [substitute_args(htm.operand(a, inner.bb), actuals) for a in inner.args] if not isinstance(inner, VirtualCallSite) else [substitute_args(a["t"], actuals) for a in inner.args]
+                ct = substitute_args(htm.call_term(inner.term, inner.bb), actuals)
+                out.append(VirtualCallSite(cs, inner, at, ct))
         return out
 
     def calls_to(self, *names, **kw):
@@ -1994,6 +2019,34 @@ def none_is_err(body, call, tm=None):
     return seen
 
 
+
+def chain_steps(F, t):
+    """an iterator chain as (base, steps): steps from the innermost adaptor outwards, each (adaptor name, value of its closure
+    over ('elem',) with the captures replaced by the caller's terms, or None when it takes no closure)"""
+    steps = []
+    t = clean(t)
+    while t[0] == "call" and t[2]:
+        name = t[1].split("{")[0]
+        short_name = re.sub(r"<[^<>]*>", "", name).split("::")[-1]
+        if not re.search(r"Iterator|Itertools|IntoIterator|::iter$|::iter_mut$|::into_iter$|::keys$|::values$", name):
+            break
+        if re.search(r"::(iter|iter_mut|keys|values)$", name) and len(t[2]) == 1:
+            steps.append((short_name, None))
+            t = t[2][0]
+            break
+        val = None
+        if len(t[2]) == 2 and t[2][1][0] == "closure" and t[2][1][1] in F.bodies:
+            cb = F.bodies[t[2][1][1]]
+            if not cb.natural_loops():
+                val = clean(substitute_closure(Terms(cb).return_term(), t[2][1][2], (("elem",),)))
+        elif len(t[2]) == 2:
+            val = t[2][1]
+        steps.append((short_name, val))
+        t = t[2][0]
+    steps.reverse()
+    return t, steps
+
+
 def proj_simplify(t):
     """field k of a literal tuple is its k-th component"""
     def f(x):
@@ -2705,14 +2758,16 @@ class IterRow:
         return self.env.get(l, ("carried", l))
 
 
-def iteration_table(body, head, max_paths=5000):
+def iteration_table(body, head, max_paths=5000, stop_at_exit=False):
     """All acyclic paths that start at loop head `head`: rows of kind
        'back'   – the path returns to the head (one full iteration); row.env holds the new values
        'return' – the path leaves the loop and reaches a return (row.ret)
        'cycle'  – the path runs into another cycle (inner loop, or a later loop after the exit)
        'diverge'– panics/diverges
     Values are terms over ('carried', l) (value of local l when the iteration starts) and loop-invariant
-    terms.  Stores through pointers (`*p = v`) are listed in row.stores as (pointer term, value)."""
+    terms.  Stores through pointers (`*p = v`) are listed in row.stores as (pointer term, value).
+    With stop_at_exit the walk ends where a path leaves the loop's own blocks: such rows have kind 'exit' (row.blocks[-1] is
+    the first block outside) — the way to read an inner loop's turn without what the enclosing loop does afterwards."""
     loops = [blocks for h, blocks in body.natural_loops() if h == head]
     if not loops:
         raise AnchorMissing("bb%d of %s is not a loop head" % (head, body.path))
@@ -2806,6 +2861,8 @@ def iteration_table(body, head, max_paths=5000):
         for nb, c2 in nexts:
             if nb == head:
                 emit("back", c2, env, stores, seen, calls)
+            elif stop_at_exit and nb not in blocks and not body.blocks[nb]["cleanup"]:
+                emit("exit", c2, env, stores, seen + [nb], calls)
             elif nb in seen:
                 emit("cycle", c2, env, stores, seen + [nb], calls)
             else:
